@@ -16,7 +16,7 @@ Require Import String.
 Require Import Arith Lia List Bool ZArith QArith Qcanon Permutation.
 From TK Require Import Mat_Sums Mat_Core Mat_Qc Mat_EigSelect EigSelect Mat_EigSelect_Tie
                        Lle_Model Lle_Spec Lle_Proof_Triplets Lle_Proof_Lle Lle_Proof_Ltsa
-                       Lle_Proof_Hlle Lle_Proof_Embed Lle_Proof_Gs Lle_Proof_GsQc Lle_Proof_KyFan Lle_Proof_Flat Lle_Proof_Run Lle_Loop HlleLoop Lle_Proof_Loop Lle_Proof_Psd.
+                       Lle_Proof_Hlle Lle_Proof_Embed Lle_Proof_Gs Lle_Proof_GsQc Lle_Proof_KyFan Lle_Proof_Flat Lle_Proof_Run Lle_Loop HlleLoop Lle_Proof_Loop Lle_Proof_Psd Lle_Proof_EndToEnd.
 Import ListNotations.
 Local Open Scope nat_scope.
 
@@ -656,4 +656,58 @@ Proof.
   split; [intros s Hs; destruct s as [|s]; try lia; apply Qc_is_canon; vm_compute; reflexivity|].
   split; [apply gs_nondegenerate_by_compute; vm_compute; reflexivity|].
   apply Qc_is_canon. vm_compute. reflexivity.
+Qed.
+
+(* ---------------------------------------------------------------------- *)
+(* 6. C08 in one statement per method (composition of the theorems above)  *)
+(*    global_contract N M E lam c0 := E^T E = E E^T = I, M E = E diag lam, *)
+(*    lam ascending, column 0 of E = c0 <> 0 (oracle contract of the dense *)
+(*    solver on the assembled matrix);  optimal_embedding N d M Y := Y has *)
+(*    orthonormal columns that sum to zero and no such Y' has smaller cost *)
+(* ---------------------------------------------------------------------- *)
+Theorem C08_klle_end_to_end_partial :
+  forall (N k d : nat) (nbr : nat -> nat -> nat) (kern : mat Qc) (shift ts : Qc) (prev : nat -> mat Qc)
+         (T : list (@triplet Qc)) (E : mat Qc) (lam : vec Qc) (c0 : Qc),
+    (forall i a b, i < N -> a < k -> b < k -> kern (nbr i a) (nbr i b) = kern (nbr i b) (nbr i a)) ->
+    lle_model (solve_checked qeqb) N k nbr kern shift ts prev = Ok T ->
+    global_contract N (from_triplets T) E lam c0 -> 1 + d <= N ->
+    (exists W : mat Qc,
+        (forall r c, r < N -> c < N -> from_triplets T r c = lle_M_spec N k nbr W shift r c) /\
+        (forall i, i < N -> exists x : vec Qc,
+            (forall a, a < k -> mv k (lle_C_reg k kern ts (nbr i) i) x a = 1%F) /\
+            (forall a, a < k -> W i a = (x a / sumn k x)%F) /\
+            (sumn k x <> 0%F -> sumn k (W i) = 1%F))) /\
+    optimal_embedding N d (from_triplets T) (select_smallest 1 d E).
+Proof. exact klle_end_to_end. Qed.
+Print Assumptions C08_klle_end_to_end_partial.
+
+Theorem C08_kltsa_end_to_end_partial :
+  forall (N k d : nat) (nbr : nat -> nat -> nat) (Eloc : nat -> mat Qc) (rsk shift : Qc)
+         (E : mat Qc) (lam : vec Qc) (c0 : Qc),
+    global_contract N (from_triplets (ltsa_model N k d nbr Eloc rsk shift)) E lam c0 -> 1 + d <= N ->
+    (forall r c, r < N -> c < N ->
+        from_triplets (ltsa_model N k d nbr Eloc rsk shift) r c =
+        ltsa_M_spec N k nbr (fun i => ltsa_P d rsk (right_cols k d (Eloc i))) shift r c) /\
+    optimal_embedding N d (from_triplets (ltsa_model N k d nbr Eloc rsk shift)) (select_smallest 1 d E).
+Proof. exact kltsa_end_to_end. Qed.
+Print Assumptions C08_kltsa_end_to_end_partial.
+
+Theorem C08_hlle_end_to_end_partial :
+  forall (N k d : nat) (nbr : nat -> nat -> nat) (V prev : nat -> mat Qc) (T : list (@triplet Qc))
+         (E : mat Qc) (lam : vec Qc) (c0 : Qc),
+    hlle_model_sf (fun x => qeqb x 0%F) false N k d nbr V prev = Ok T ->
+    global_contract N (from_triplets T) E lam c0 -> 1 + d <= N ->
+    (forall r c, from_triplets T r c =
+                 hlle_M_spec N k nbr (fun i => hlle_local_sf false k d (prev i) (V i)) r c) /\
+    (forall i, i < N -> gs_degenerate (fun x => qeqb x 0%F) (hlle_gs_sf false k d (prev i) (V i)) = false) /\
+    optimal_embedding N d (from_triplets T) (select_smallest 1 d E).
+Proof. exact hlle_end_to_end. Qed.
+Print Assumptions C08_hlle_end_to_end_partial.
+
+(* non-vacuity of the global contract: the 4 x 4 example above *)
+Example C08_global_contract_nonvacuous : global_contract 4 c08_M4 c08_E4 c08_lam4 (qfrac 1 2) /\ 1 + 2 <= 4.
+Proof.
+  destruct C08_cost_minimal_nonvacuous as [HC [HE [Hc [Hasc _]]]].
+  split; [|lia]. split; [exact HC|]. split; [exact HE|]. split; [exact Hc|]. split; [|exact Hasc].
+  intros K. apply (f_equal this) in K. vm_compute in K. discriminate.
 Qed.
